@@ -167,6 +167,7 @@ class SLE(Equilibrium, phases='ls'):
         self._chemical = None
         if self._nonzero == nonzero:
             index = self._index
+            self._solute_gamma_index = index.index(solute_index)
         else:
             chemicals = self.chemicals
             # Set up indices for both equilibrium and non-equilibrium species
